@@ -86,7 +86,7 @@ def sites(interp, obj, path=(), heavy=False):
                     out.append((path, "fixed-array-short", ins))
             elif lref is not None:
                 w = interp.resolve(lref.type).wire
-                if w in ("byte", "char") or (heavy and w == "short"):
+                if w in ("byte", "char") or (heavy and w == "short" and t.kind in ("int", "bool", "enum")):
                     out.append((path, "lengthref-array-long", ins))
             if t.kind in ("int", "enum") and len(v) > 0:
                 out.append((path, "array-element-at-limit", ins))
